@@ -1,5 +1,11 @@
 import PqlModel.Props.C14
+import PqlModel.Props.C14Order
 #print axioms Pql.C14.C14_no_conflicting_access
 #print axioms Pql.C14.C14_parameter_map_read_only
 #print axioms Pql.C14.C14_package_vars
 #print axioms Pql.C14.C14_once_safe
+#print axioms Pql.C14.C14_param_order_irrelevant
+#print axioms Pql.C14.C14_compile_param_order_irrelevant
+#print axioms Pql.C14.C14_unused_param_irrelevant
+#print axioms Pql.C14.C14_unused_param_irrelevant_anywhere
+#print axioms Pql.C14.C14_condition_less_join_reads_true
